@@ -8,6 +8,7 @@ decides); a sub-sample runs `codebasin -R duplicates` and parses stdout.
 Oracle: byte-wise partition of the non-symlink member files.
 """
 
+import filecmp
 import hashlib
 import os
 import shutil
@@ -38,13 +39,15 @@ def required_cells(tier):
     return ["class-size>=3", "classes>=2", "weak-digest-collision-different-content", "near-duplicate", "excluded-twin",
             "symlinked-twin", "hard-link", "empty-files", "no-duplicates", "non-source-twin", "cli", "same-size-same-mtime-different-content", "link-enumerated-before-target",
             "class-size>20", "cli:class-size>20", "negation-after-wildcard", "cli:negation-after-wildcard", "two-directory-code-base", "directory-named-through-link",
-            "ancestor-directory-named-like-a-pattern"]
+            "ancestor-directory-named-like-a-pattern", "report-to-stream", "same-object-after-a-file-was-added", "dot-directory"]
 
 
 def gen_case(rng, big=False, force_neg=False):
     """big: 22..60 files over 1..2 contents (a vendored header copied many times)."""
     ndirs = rng.randint(0, 3)
     dirs = [""] + [f"d{i}" for i in range(ndirs)] + (["d0/sub"] if ndirs and rng.random() < 0.5 else [])
+    if rng.random() < 0.3:
+        dirs += [rng.choice([".ci", ".devcontainer/helpers", "d0/.hidden"])]       # directories whose names start with a dot
     npool = rng.randint(1, 6) if not big else rng.randint(1, 2)
     pool = rng.sample(range(len(POOL)), npool)
     files = {}
@@ -176,6 +179,8 @@ def cells_of(case, classes, by, root):
         cells.add("hard-link")
     if case["nonsrc"]:
         cells.add("non-source-twin")
+    if any(part.startswith(".") for f_ in case["files"] for part in f_.split("/")[:-1]):
+        cells.add("dot-directory")
     if any(p.endswith("/") and p.rstrip("/") in real_root_parts(root) for p in case["excludes"]):
         cells.add("ancestor-directory-named-like-a-pattern")
     if any(p.startswith("!") for p in case["excludes"]):
@@ -282,6 +287,37 @@ def check_case(ctx, case, root, cls, do_cli=False):
         except Exception as e:
             problems.append({"mode": "two-directory code base", "observed": f"{type(e).__name__}: {e}"})
         shutil.rmtree(twin, ignore_errors=True)
+    if not problems:
+        # the printed report, written to a stream of the caller's choosing, lists the same groups
+        import io
+        from codebasin import CodeBase, report
+        buf = io.StringIO()
+        filecmp.clear_cache()
+        cb2 = CodeBase(real_root, exclude_patterns=list(case["excludes"]))
+        try:
+            report.duplicates(cb2, stream=buf)
+            text = buf.getvalue()
+            groups = {frozenset(g) for g in cli.parse_duplicates(text if "Duplicates" in text else "Duplicates\n" + text)}
+            cells.add("report-to-stream")
+            if groups != classes or (not classes and "No duplicates found." not in text):
+                problems.append({"mode": "report.duplicates(stream=...)", "expected": sorted(sorted(os.path.relpath(p, real_root) for p in c) for c in classes),
+                                 "observed": sorted(sorted(os.path.relpath(p, real_root) for p in c) for c in groups), "text": text[:300]})
+        except Exception as e:
+            problems.append({"mode": "report.duplicates(stream=...)", "observed": f"{type(e).__name__}: {e}"})
+        # the same CodeBase object asked again after a twin of an existing file has been added
+        if case["files"] and not problems:
+            src = sorted(case["files"])[0]
+            if not excluded(src, case["excludes"]) and not excluded("added_twin" + os.path.splitext(src)[1], case["excludes"]):
+                twin = os.path.join(real_root, "added_twin" + os.path.splitext(src)[1])
+                shutil.copyfile(os.path.join(real_root, src), twin)
+                os.utime(twin, (1_600_000_000, 1_600_000_000))
+                filecmp.clear_cache()
+                again = {frozenset(str(p) for p in s_) for s_ in report.find_duplicates(cb2)}
+                cells.add("same-object-after-a-file-was-added")
+                if not any(twin in g and os.path.join(real_root, src) in g for g in again):
+                    problems.append({"mode": "second find_duplicates on the same CodeBase after a twin was added", "added": "added_twin", "of": src,
+                                     "observed": sorted(sorted(os.path.relpath(p, real_root) for p in c) for c in again)})
+                os.unlink(twin)
     if do_cli and not problems:
         with open(os.path.join(real_root, "analysis.toml"), "w") as f:
             if case["excludes"]:
